@@ -19,7 +19,8 @@ RULE = ('Hypothesis-generated SimNet programs with 1-3 stream / channel interact
         'min(#elements, credit) and the consumer received exactly those; the consumer\'s initial_request_n / request(n) '
         'values equal the initial request-n and REQUEST_N frames on its wire, value for value, in order. Non-trivial = '
         'the producer was blocked at sent == credit with elements remaining and later received more credit; distinct = '
-        'program hash.')
+        'program hash. Plus 2-3 concurrent streams served by an Rx handler that returns the same source object for every request: '
+        'sent <= credit and sent == min(elements, credit) hold per stream.')
 ASSUMPTIONS = ['lease off (D11 interacts with credit frames)', 'third-party publishers are out of scope by the statement']
 
 KINDS = ['gen', 'agen', 'rx3', 'rx4', 'rx3bp', 'rx4bp']
@@ -156,7 +157,73 @@ def blocked_then_credited(tr):
     return False
 
 
+@st.composite
+def shared_cases(draw):
+    """Two or three streams open at the same time, all served by an Rx handler that hands out the same source object
+    (a cold observable, or one back-pressure factory wrapper) for every request: credit is per stream."""
+    k = draw(st.integers(2, 3))
+    return {'shared_source': True, 'version': draw(st.sampled_from([3, 4, 4])), 'bp': draw(st.booleans()),
+            'n': draw(st.integers(4, 12)), 'streams': [{'n0': draw(st.sampled_from([1, 2, 3, 5]))} for _ in range(k)],
+            'grants': [[draw(st.integers(0, k - 1)), draw(st.sampled_from([1, 2, 3, 20]))] for _ in range(draw(st.integers(1, 6)))],
+            'msg': draw(st.booleans())}
+
+
+def shared_prop(case):
+    from harness import app as A
+    from harness.checks import c20
+    M = c20.rxmods(case['version'])
+
+    def server_factory(scn):
+        world = scn.world
+        shared = c20.observable(M, world, 's', 'resp', case['n'], None, A.TAG_RESP, [5, 0], case['bp'])
+
+        class Delegate(M['Base']):
+            async def request_stream(self, payload):
+                return shared
+
+        return M['hf'](Delegate)
+
+    inter = [{'k': 'st', 'side': 'c', 'req': [3, 0], 'src': None, 'sub': {'n0': s_['n0'], 'refill': 0}} for s_ in case['streams']]
+    ops = [['tick', 3]] + [['start']] * len(inter) + [['tick', 6], ['settle']]
+    for i, g in case['grants']:
+        ops += [['req', i, 'resp', g], ['tick', 4]]
+    ops += [['settle'], ['adv', 50], ['settle']]
+    prog = {'cfg': {'msg': case['msg'], 'frag': [None, None], 'rbuf': [1024, 1024]}, 'inter': inter, 'ops': ops, 'heal': False,
+            '_handler_factory': {'s': server_factory}, '_actions': {}}
+    tr = run_program(prog)
+    vs = []
+    for uid in tr.scn.started:
+        sid = tr.scn.st[uid]['sid']
+        credit = sent = 0
+        over = None
+        for e in tr.world.log:
+            if e['side'] != 's' or e['ev'] not in ('send', 'recv') or e['f']['sid'] != sid:
+                continue
+            f = e['f']
+            if e['ev'] == 'recv' and f['type'] in ('REQUEST_STREAM', 'REQUEST_N'):
+                credit = min(monitors.MAXN, credit + (f.get('n') or 0))
+            elif e['ev'] == 'send' and f['type'] == 'PAYLOAD' and f.get('next') and not f.get('follows'):
+                sent += 1
+                if sent > credit and over is None:
+                    over = (sent, credit)
+        kind = ('rx%d' % case['version']) + ('bp' if case['bp'] else '')
+        if over:
+            vs.append(common.viol('sent_more_than_credit', '%s:over_credit:%s:shared_source' % (PID, kind), uid=uid, sent=over[0],
+                                  credit=over[1]))
+        elif sent != min(case['n'], credit):
+            vs.append(common.viol('credit_not_used', '%s:stalled_with_credit:%s:shared_source' % (PID, kind), uid=uid, sent=sent,
+                                  credit=credit, elements=case['n']))
+    for err in tr.loop_errors:
+        vs.append(common.viol('unhandled_exception', '%s:loop_error:%s' % (PID, err.get('type')), **err))
+    info['nt'] = True
+    info['classes'] = ['part=shared_source', 'streams=%d' % len(inter)]
+    info['key'] = None
+    return vs
+
+
 def prop(program):
+    if program.get('shared_source'):
+        return shared_prop(program)
     tr = run_program(program)
     vs = monitors.mon_credit(tr, PID)
     # without heal credit the run ends with producers blocked: only order/integrity of what did arrive is judged here
@@ -176,11 +243,11 @@ def classify(case, vs):
     return info.get('nt', False), info.get('classes', ()), None
 
 
-def shard(tier, seed, n):
+def shard(tier, seed, n, shared=False):
     common.use_repo()
     stats = common.Stats()
     known = common.Known(PID)
-    common.hyp_search(stats, known, programs(), prop, n, seed, classify=classify, shrink=True)
+    common.hyp_search(stats, known, shared_cases() if shared else programs(), prop, n, seed, classify=classify, shrink=True)
     return stats
 
 
@@ -189,6 +256,7 @@ def run(tier, seed):
     total = 4000 if tier == 'quick' else 60000
     nsh = common.NPROC
     jobs = [dict(tier=tier, seed=s, n=total // nsh) for s in common.shard_seeds(seed, nsh)]
+    jobs += [dict(tier=tier, seed=s + 71, n=(240 if tier == 'quick' else 6000) // 4, shared=True) for s in common.shard_seeds(seed, 4)]
     stats = common.run_shards(__name__, 'shard', jobs)
     return common.finish(PID, tier, seed, LEVEL, RULE, stats, t0, ASSUMPTIONS)
 
